@@ -285,11 +285,17 @@ Qed.
 Definition wf_ecs (e : ecs) : Prop :=
   (e_fam e = 0 /\ e_src e = 0) \/
   (e_fam e = 1 /\ e_src e <= 32 /\ is_v4 (e_addr e) = true) \/
-  (e_fam e = 2 /\ e_src e <= 128).
+  (e_fam e = 2 /\ e_src e <= 128 /\ e_addr e < two128).
 
 (* the family the client prefix is matched in: an IPv4 client is an IPv4 or v4-mapped
    address disclosed with at least the 96 prefix bits *)
 Definition ecs_family (e : ecs) : family := if is_v4 (e_addr e) && (96 <=? ecs_plen e) then V4 else V6.
+
+(* the IPNets the handler hands to GetLocationByMap: an address below 2^128 under a
+   128-bit mask, or an IPv4 (v4-mapped) address under a 32-bit mask *)
+Definition wf_client (c : client) : Prop :=
+  exists a, c_ip c = Some a /\ a < two128 /\
+    ((c_bits c = 128 /\ c_ones c <= 128) \/ (c_bits c = 32 /\ c_ones c <= 32 /\ is_v4 a = true)).
 
 Definition map_of (mo : option bytes) : N * N := match mo with Some b => two_bytes b | None => (0, 0) end.
 
@@ -299,18 +305,18 @@ Section Scope.
   Variable fm8 fmM : result (option bytes).
   Variable gl : mapid -> client -> result (option bytes * N).
   (* C03: GetLocationByMap is longest-prefix match *)
-  Hypothesis gl_is_lpm : forall m c, exists r, gl m c = Ok r /\
+  Hypothesis gl_is_lpm : forall m c, wf_client c -> exists r, gl m c = Ok r /\
     hit_of r = lpm (nets m) (cfam c) (search_addr premask c) (eff_plen c).
 
   Definition loc_of_lpm (m : mapid) (r : option (locid * N)) : location :=
     match r with Some (loc, l) => mkLocation m l loc | None => mkLocation m 0 (0, 0) end.
 
-  Lemma find_location_lpm : forall fm mo c, fm = Ok mo ->
+  Lemma find_location_lpm : forall fm mo c, wf_client c -> fm = Ok mo ->
     find_location fm (fun m => gl m c) =
     Ok (loc_of_lpm (map_of mo) (lpm (nets (map_of mo)) (cfam c) (search_addr premask c) (eff_plen c))).
   Proof.
-    intros fm mo c ->. unfold find_location, rbind. cbv zeta.
-    destruct (gl_is_lpm (map_of mo) c) as [r [G Hh]]. unfold map_of in *. rewrite G.
+    intros fm mo c Hc ->. unfold find_location, rbind. cbv zeta.
+    destruct (gl_is_lpm (map_of mo) c Hc) as [r [G Hh]]. unfold map_of in *. rewrite G.
     rewrite <- Hh. unfold hit_of. destruct r as [[b|] n]; reflexivity.
   Qed.
 
@@ -324,7 +330,7 @@ Section Scope.
     assert (Hplen : eff_plen c = ecs_plen e /\ ecs_plen e <= 128 /\ cfam c = ecs_family e /\
                     (search_addr premask c = e_addr e \/ search_addr premask c = clean_mask (e_addr e) (ecs_plen e))).
     { unfold c, ecs_client, cfam, eff_plen, ecs_family, ecs_plen, search_addr, c_size, c_isv4, c_masked, c_addr.
-      destruct Hwf as [[F _]|[[F [Hs Hv]]|[F Hs]]].
+      destruct Hwf as [[F _]|[[F [Hs Hv]]|[F [Hs _]]]].
       - destruct Hf as [X|X]; rewrite X in F; discriminate.
       - rewrite F. change (1 =? 2) with false. change (1 =? 1) with true. cbv iota.
         cbn [c_ip c_bits c_ones]. rewrite Hv. change (32 =? 32) with true. cbn [andb].
@@ -365,7 +371,7 @@ Section Scope.
 
   Lemma wf_plen : forall e, wf_ecs e -> ecs_plen e <= 128.
   Proof.
-    intros e [[F S]|[[F [S _]]|[F S]]]; unfold ecs_plen; rewrite F.
+    intros e [[F S]|[[F [S _]]|[F [S _]]]]; unfold ecs_plen; rewrite F.
     - change (0 =? 1) with false. cbv iota. lia.
     - change (1 =? 1) with true. cbv iota. lia.
     - change (2 =? 1) with false. cbv iota. lia.
@@ -385,7 +391,17 @@ Section Scope.
     - assert (Hf : e_fam e = 1 \/ e_fam e = 2).
       { apply Bool.negb_false_iff in NF. apply Bool.orb_true_iff in NF.
         destruct NF as [X|X]; apply N.eqb_eq in X; auto. }
-      rewrite (find_location_lpm fm8 mo _ Hfm). cbn [rbind].
+      assert (Hc : wf_client (ecs_client (e_fam e) (e_src e) (e_addr e))).
+      { unfold wf_client, ecs_client. exists (e_addr e). cbn [c_ip c_bits c_ones].
+        split; [reflexivity|].
+        destruct Hwf as [[F _]|[[F [S V]]|[F [S B]]]].
+        - destruct Hf as [X|X]; rewrite X in F; discriminate.
+        - rewrite F. change (1 =? 2) with false. cbv iota. split.
+          + unfold is_v4 in V. apply Bool.andb_true_iff in V. destruct V as [_ V]. apply N.ltb_lt in V.
+            assert (C2 : after_v4 < two128) by (vm_compute; reflexivity). lia.
+          + right. auto.
+        - rewrite F. change (2 =? 2) with true. cbv iota. split; [exact B|]. left. auto. }
+      rewrite (find_location_lpm fm8 mo _ Hc Hfm). cbn [rbind].
       rewrite (ecs_client_lpm (nets (map_of mo)) e Hwf Hf).
       unfold ecs_scope.
       destruct (lpm (nets (map_of mo)) (ecs_family e) (e_addr e) (ecs_plen e)) as [[loc len]|] eqn:L;
@@ -420,11 +436,15 @@ Section Scope.
   Definition resolver_decides (m : mapid) (a : N) : locid :=
     match lpm (nets m) (fam a) a 128 with Some (loc, _) => loc | None => (0, 0) end.
 
-  Lemma resolver_location_spec : forall a mo, fmM = Ok mo ->
+  Lemma resolver_location_spec : forall a mo, a < two128 -> fmM = Ok mo ->
     exists l, resolver_location fmM gl (Some a) = Ok l /\ l_loc l = resolver_decides (map_of mo) a.
   Proof.
-    intros a mo Hfm. unfold resolver_location, resolver_decides.
-    rewrite (find_location_lpm fmM mo _ Hfm).
+    intros a mo Ha Hfm. unfold resolver_location, resolver_decides.
+    assert (Hc : wf_client (resolver_client (Some a))).
+    { unfold wf_client, resolver_client. exists a. destruct (is_v4 a) eqn:V; cbn [c_ip c_bits c_ones].
+      - split; [reflexivity|]. split; [exact Ha|]. right. split; [reflexivity|]. split; [lia|reflexivity].
+      - split; [reflexivity|]. split; [exact Ha|]. left. split; [reflexivity|lia]. }
+    rewrite (find_location_lpm fmM mo _ Hc Hfm).
     eexists. split; [reflexivity|].
     assert (E : lpm (nets (map_of mo)) (cfam (resolver_client (Some a)))
                     (search_addr premask (resolver_client (Some a))) (eff_plen (resolver_client (Some a)))
@@ -449,7 +469,7 @@ Section Scope.
     end.
 
   Lemma find_client_location_spec : forall q mo8 moM rip,
-    fm8 = Ok mo8 -> fmM = Ok moM -> q_rip q = Some rip ->
+    fm8 = Ok mo8 -> fmM = Ok moM -> q_rip q = Some rip -> rip < two128 ->
     (forall e, query_ecs q = Some e -> wf_ecs e) ->
     exists e' loc, find_client_location fm8 fmM gl q = Ok (e', loc) /\
       l_loc loc = decides (map_of mo8) (map_of moM) q rip /\
@@ -458,8 +478,8 @@ Section Scope.
            | None => None
            end.
   Proof.
-    intros q mo8 moM rip H8 HM Hr Hwf. unfold find_client_location, decides. rewrite Hr.
-    destruct (resolver_location_spec rip moM HM) as [lr [RL RD]].
+    intros q mo8 moM rip H8 HM Hr Hlt Hwf. unfold find_client_location, decides. rewrite Hr.
+    destruct (resolver_location_spec rip moM Hlt HM) as [lr [RL RD]].
     destruct (query_ecs q) as [e|].
     - destruct (ecs_location_spec e mo8 H8 (Hwf e eq_refl)) as [lo [EL [P1 P2]]].
       rewrite EL. simpl. destruct lo as [l|].
@@ -475,7 +495,7 @@ Section Scope.
 
   (* C10_scope_truthful *)
   Theorem scope_truthful : forall ev q r e mo8 moM rip,
-    fm8 = Ok mo8 -> fmM = Ok moM -> q_rip q = Some rip ->
+    fm8 = Ok mo8 -> fmM = Ok moM -> q_rip q = Some rip -> rip < two128 ->
     badvers q = false -> no_backend_error ev ->
     query_ecs q = Some e -> wf_ecs e ->
     serve fm8 fmM gl ev q = Reply r ->
@@ -483,9 +503,9 @@ Section Scope.
       e_scope e' = expected_scope (map_of mo8) e /\
       (e_fam e = 1 -> e_scope e' <= 32) /\ (e_fam e = 2 -> e_scope e' <= 128).
   Proof.
-    intros ev q r e mo8 moM rip H8 HM Hr Hb Hne Hq Hwf H.
+    intros ev q r e mo8 moM rip H8 HM Hr Hlt Hb Hne Hq Hwf H.
     destruct (serve_shape fm8 fmM gl ev q r Hb Hne H) as [e' [loc [F [_ E]]]].
-    destruct (find_client_location_spec q mo8 moM rip H8 HM Hr) as [e2 [loc2 [F2 [_ E2]]]].
+    destruct (find_client_location_spec q mo8 moM rip H8 HM Hr Hlt) as [e2 [loc2 [F2 [_ E2]]]].
     { intros e0 He0. rewrite Hq in He0. inversion He0; subst. exact Hwf. }
     rewrite F in F2. injection F2 as Ee El. rewrite <- Ee in E2. rewrite Hq in E2.
     assert (Q : exists o, q_edns q = Some o).
@@ -512,37 +532,37 @@ Section Scope.
   (* C10_fallback_to_resolver: the location handed to the cache key and to the answer
      lookup is the one the ECS option yields, and the resolver's when it yields none *)
   Theorem fallback_to_resolver : forall ev q r mo8 moM rip,
-    fm8 = Ok mo8 -> fmM = Ok moM -> q_rip q = Some rip ->
+    fm8 = Ok mo8 -> fmM = Ok moM -> q_rip q = Some rip -> rip < two128 ->
     badvers q = false -> no_backend_error ev ->
     (forall e, query_ecs q = Some e -> wf_ecs e) ->
     serve fm8 fmM gl ev q = Reply r ->
     r_loc r = decides (map_of mo8) (map_of moM) q rip.
   Proof.
-    intros ev q r mo8 moM rip H8 HM Hr Hb Hne Hwf H.
+    intros ev q r mo8 moM rip H8 HM Hr Hlt Hb Hne Hwf H.
     destruct (serve_shape fm8 fmM gl ev q r Hb Hne H) as [e' [loc [F [RL _]]]].
-    destruct (find_client_location_spec q mo8 moM rip H8 HM Hr Hwf) as [e2 [loc2 [F2 [D _]]]].
+    destruct (find_client_location_spec q mo8 moM rip H8 HM Hr Hlt Hwf) as [e2 [loc2 [F2 [D _]]]].
     rewrite F in F2. inversion F2; subst. rewrite RL. exact D.
   Qed.
 
   (* a query is always answered when the lookups do not fail *)
   Theorem always_replies : forall ev q mo8 moM rip,
-    fm8 = Ok mo8 -> fmM = Ok moM -> q_rip q = Some rip ->
+    fm8 = Ok mo8 -> fmM = Ok moM -> q_rip q = Some rip -> rip < two128 ->
     (forall e, query_ecs q = Some e -> wf_ecs e) ->
     exists r, serve fm8 fmM gl ev q = Reply r.
   Proof.
-    intros ev q mo8 moM rip H8 HM Hr Hwf. unfold serve.
+    intros ev q mo8 moM rip H8 HM Hr Hlt Hwf. unfold serve.
     destruct (badvers q); [eauto|].
-    destruct (find_client_location_spec q mo8 moM rip H8 HM Hr Hwf) as [e2 [loc2 [F2 _]]].
+    destruct (find_client_location_spec q mo8 moM rip H8 HM Hr Hlt Hwf) as [e2 [loc2 [F2 _]]].
     rewrite F2. destruct (cache_hit ev (l_loc loc2)); [eauto|].
     destruct (auth ev (l_loc loc2)); eauto.
   Qed.
 End Scope.
 
 (* gl_lpm satisfies the hypothesis of the Scope section *)
-Lemma gl_lpm_is_lpm : forall nets premask m c, exists r, gl_lpm nets premask m c = Ok r /\
+Lemma gl_lpm_is_lpm : forall nets premask m c, wf_client c -> exists r, gl_lpm nets premask m c = Ok r /\
   hit_of r = lpm (nets m) (cfam c) (search_addr premask c) (eff_plen c).
 Proof.
-  intros nets premask m c. unfold gl_lpm.
+  intros nets premask m c _. unfold gl_lpm.
   destruct (lpm (nets m) (cfam c) (search_addr premask c) (eff_plen c)) as [[[x y] l]|].
   - eexists. split; [reflexivity|]. reflexivity.
   - eexists. split; [reflexivity|]. reflexivity.
@@ -603,7 +623,11 @@ Proof.
     + destruct (f =? 2) eqn:F2; [|discriminate].
       destruct ((128 <? s) || (128 <? sc)) eqn:B; [discriminate|].
       remember (be_val (pad_to 16 ab)) as v eqn:Hv. inversion H; subst e.
-      right; right. cbn [e_fam e_src]. apply Bool.orb_false_iff in B. destruct B as [B _]. apply N.ltb_ge in B. auto.
+      right; right. cbn [e_fam e_src e_addr]. apply Bool.orb_false_iff in B. destruct B as [B _]. apply N.ltb_ge in B.
+      split; [reflexivity|]. split; [exact B|].
+      destruct (pad_to_wf 16 ab Hb) as [W L]. pose proof (be_val_bound _ W) as BV. rewrite L in BV.
+      assert (P16 : 256 ^ N.of_nat 16 = two128) by (vm_compute; reflexivity). rewrite P16 in BV.
+      subst v. exact BV.
 Qed.
 
 (* ---------------------------------------------------------------- non-vacuity *)
@@ -662,7 +686,7 @@ Example ecs_example : forall premask,
   scope_loc (ex_serve premask (101, 49) (ex_query 0 0 5 first_v4)) =
     Some (0, 0, 0, first_v4, (0, 1)) /\
   (* the hypotheses of the Scope section hold for this backend *)
-  (forall m c, exists r, gl_lpm ex_nets premask m c = Ok r /\
+  (forall m c, wf_client c -> exists r, gl_lpm ex_nets premask m c = Ok r /\
      hit_of r = lpm (ex_nets m) (cfam c) (search_addr premask c) (eff_plen c)) /\
   wf_ecs (mkEcs 1 24 9 (first_v4 + 167838208)).
 Proof.
